@@ -880,6 +880,9 @@ class DBusObjectHandler :
             def send_error(err):
                 e = err.value
                 errMsg = err.getErrorMessage()
+                # the text must be a valid DBus string or the reply cannot be built
+                errMsg = errMsg.encode('utf-8', 'replace').decode('utf-8')
+                errMsg = errMsg.replace('\0', ' ')
                 name = None
 
                 if hasattr(e, 'dbusErrorName'):
